@@ -323,6 +323,26 @@ def walk_tlv(b: bytes, pos: int, end: int, depth: int = 0) -> t.Optional[str]:
     return None
 
 
+def lazy_events() -> t.List[t.Dict[str, t.Any]]:
+    """Values whose mere construction may fail on a changed tree (unnamed result codes of any size): built inside the event,
+    a constructor that raises is recorded as a failed pack (C01/PackRaises)."""
+    import sansldap._messages as M
+
+    out = []
+    for n in (2**32, 2**40 + 1, 2**63, 2**64 + 5, -1, -(2**31) - 1, -(2**40), 16654, 255):
+        for build in (lambda: M.SearchResultDone(3, [], M.LDAPResult(M.LDAPResultCode(n), "", "", None)),
+                      lambda: M.ExtendedResponse(4, [], M.LDAPResult(M.LDAPResultCode(n), "dc=x", "d", ["ldap://x"]), "1.2.3", b"v"),
+                      lambda: M.BindResponse(5, [], M.LDAPResult(M.LDAPResultCode(n), "", "", None), None)):
+            try:
+                msg = build()
+                e = codec_event(msg)
+            except Exception as ex:  # noqa: BLE001
+                e = {"m": {"op": "unbuildable", "id": {"neg": False, "mag": []}, "controls": []}, "packres": C.exc_kind(ex), "packed": [], "decres": "ok", "dec": {"op": "none"},
+                     "rest": [], "repacked": []}
+            out.append(e)
+    return out
+
+
 def huge_checks(rep: C.Report) -> None:
     """Elements with 2^24 and more content octets (four length octets).  Their encodings are beyond what TLC can take as a
     trace event, so they are judged here: the octets must be exactly tiled by definite-length TLVs at every level (an
@@ -369,6 +389,7 @@ def trace_part(rep: C.Report, wd: str, tier: str, rnd: random.Random, extra_msgs
             failing_pack(rnd)
         events.append(codec_event(m))
     events += altenc_events(rnd, 60 if tier == "quick" else 1500)
+    events += lazy_events()
     huge_checks(rep)
     for e in events:
         rep.case((e["m"]["op"], str(e["packed"])[:400]))
